@@ -245,13 +245,14 @@ def visitTip (st : GVL) (v : Vertex) : GVL :=
   | .ok () =>
     if st.left.isNone then { st with left := some v, err := none } else { st with right := some v, err := none }
 
-def getValidLeaves (b : Book) (order : List Hash) : GVL :=
-  order.foldl (fun (st : GVL) h =>
-    if st.left.isSome && st.right.isSome then st else
-    match st.book.getVertex h with
-    | none => st                       -- not a vertex of the book: not part of the tips map
-    | some v => visitTip st v)
-    { book := b }
+/-- One iteration of the loop over the tips map in getValidLeaves. -/
+def gvlStep (st : GVL) (h : Hash) : GVL :=
+  if st.left.isSome && st.right.isSome then st else
+  match st.book.getVertex h with
+  | none => st                       -- not a vertex of the book: not part of the tips map
+  | some v => if st.book.isLeaf h then visitTip st v else st   -- the tips map only holds tips
+
+def getValidLeaves (b : Book) (order : List Hash) : GVL := order.foldl gvlStep { book := b }
 
 /-- Add edges from the (consecutively deduplicated) `parents` to `tip`. -/
 def linkNew (b : Book) (tip : Hash) : Hash → List Hash → Option Book
@@ -400,14 +401,14 @@ def fmGet (m : List (Addr × Pre)) (a : Addr) : Pre := ((m.find? (·.1 == a)).ma
 def fmSet (m : List (Addr × Pre)) (a : Addr) (p : Pre) : List (Addr × Pre) :=
   if m.any (·.1 == a) then m.map (fun e => if e.1 == a then (a, p) else e) else m ++ [(a, p)]
 
-/-- precalculate.go updateFounds: both entries are read first, both written afterwards (receiver
-last), `Supply` errors are ignored. -/
+/-- precalculate.go updateFounds: the issuer's entry is updated and stored, then the receiver's entry
+is read, updated and stored (for a transfer to oneself the second step sees the first); `Supply`
+errors are ignored. -/
 def fmUpdate (m : List (Addr × Pre)) (issuer receiver : Addr) (s : Melange) : List (Addr × Pre) :=
   let ip := fmGet m issuer
-  let rp := fmGet m receiver
-  let ip' := { ip with out := (ip.out.supply s).1 }
-  let rp' := { rp with inn := (rp.inn.supply s).1 }
-  fmSet (fmSet m issuer ip') receiver rp'
+  let m1 := fmSet m issuer { ip with out := (ip.out.supply s).1 }
+  let rp := fmGet m1 receiver
+  fmSet m1 receiver { rp with inn := (rp.inn.supply s).1 }
 
 def fmNext (m : List (Addr × Pre)) (v : Vertex) : List (Addr × Pre) :=
   if !v.trx.isSpice then m else fmUpdate m v.trx.issuer v.trx.receiver v.trx.spice
@@ -418,28 +419,32 @@ def fmFinal (p : Pre) : Melange := (p.inn.drain p.out Melange.zero).1
 def cpFundsSet (l : List (Addr × Melange)) (a : Addr) (s : Melange) : List (Addr × Melange) :=
   if l.any (·.1 == a) then l.map (fun e => if e.1 == a then (a, s) else e) else l ++ [(a, s)]
 
+/-- Second walk of truncate: every ancestor of the cut is looked up and saved to storage
+(saveVertexToStorage fails if the hash is already stored). -/
+def collectMoved (b : Book) : List Hash → List Vertex → Except Err (List Vertex)
+  | [], acc => .ok acc
+  | h :: hs, acc =>
+    match b.getVertex h with
+    | none => .error [.unexpected, .idUnknown]
+    | some v =>
+      if (b.cpVerts ++ acc).any (·.hash == v.hash) then .error [.unexpected, .leafExists]
+      else collectMoved b hs (acc ++ [v])
+
+/-- Checkpointed funds after folding the moved vertices into the funds map (precalculate.go). -/
+def newCpFunds (b : Book) (mv : List Vertex) : List (Addr × Melange) :=
+  let fm0 : List (Addr × Pre) := b.cpFunds.map (fun e => (e.1, { inn := e.2 }))
+  let fm := mv.foldl fmNext fm0
+  fm.foldl (fun l e => cpFundsSet l e.1 (fmFinal e.2)) b.cpFunds
+
 /-- truncate with the cut vertex given (the BFS position rule is checked by `cutAdmissible`).
 Everything strictly above the cut moves to storage; the cut itself stays and becomes a root. -/
 def truncateAt (b : Book) (cut : Hash) : Book × Except Err Unit :=
   if !b.hasVertex cut then (b, .error [.idUnknown]) else
-  let moved := b.ancestors cut
-  let fm0 : List (Addr × Pre) := b.cpFunds.map (fun e => (e.1, { inn := e.2 }))
-  -- second walk: funds + vertex to storage (fails in the middle if a vertex is already stored)
-  let step := fun (st : Except Err (List (Addr × Pre) × List Vertex)) (h : Hash) =>
-    match st with
-    | .error e => .error e
-    | .ok (fm, cp) =>
-      match b.getVertex h with
-      | none => .error [.unexpected, .idUnknown]
-      | some v =>
-        if cp.any (·.hash == v.hash) then .error [.unexpected, .leafExists]
-        else .ok (fmNext fm v, cp ++ [v])
-  match moved.foldl step (.ok (fm0, b.cpVerts)) with
+  match collectMoved b (b.ancestors cut) [] with
   | .error e => (b, .error e)
-  | .ok (fm, cp) =>
-    let funds := fm.foldl (fun l e => cpFundsSet l e.1 (fmFinal e.2)) b.cpFunds
-    let b1 := { b with cpFunds := funds, cpVerts := cp }
-    (moved.foldl (fun b h => b.deleteVertex h) b1, .ok ())
+  | .ok mv =>
+    let b1 := { b with cpFunds := newCpFunds b mv, cpVerts := b.cpVerts ++ mv }
+    ((b.ancestors cut).foldl (fun b h => b.deleteVertex h) b1, .ok ())
 
 /-- BFS levels of the ancestors of `h`. -/
 def bfsLevels (b : Book) : Nat → List Hash → List Hash → List (List Hash) → List (List Hash)
